@@ -422,7 +422,7 @@ func (e *env) open() (ok bool) {
 	case "tcp":
 		ln, err := net.Listen("tcp", "127.0.0.1:0")
 		if err != nil {
-			e.inconclusive("cannot listen on loopback: "+err.Error())
+			e.inconclusive("cannot listen on loopback: " + err.Error())
 			return false
 		}
 		e.ln = ln
